@@ -6,7 +6,7 @@ from vp import core, gen, sig as S
 
 PROP_ID = 'C16'
 LEVEL = 'fault_enumeration'
-BUDGET = {'quick': 2500, 'thorough': 60000}
+BUDGET = {'quick': 7000, 'thorough': 60000}
 RULE = ('Hypothesis draws a cadence (1..6 compatible frames with individual tchans, a start time incl. '
         'unix-scale 1.7e9, per-frame gaps, optional slew overwrite, optional selection by slice, order label, '
         'reversed slice or arbitrary index list (so the first member need not be the earliest)), a signal description and options as in C01 (incl. sub-sample integration and smearing) and '
@@ -137,6 +137,7 @@ def run_case(case, ctx):
     sel = case['select']
     target = cad
     members = list(frames)
+    t_constructed = [float(f.t_start) for f in frames]       # selecting frames is read-only
     if sel == 'slice':
         a = case['sel_a'] % nfr
         b = a + 1 + case['sel_b'] % (nfr - a)
@@ -163,6 +164,11 @@ def run_case(case, ctx):
         return obs
     if [id(f) for f in target] != [id(f) for f in members]:
         obs.fail('selection_members', '')
+        return obs
+    moved = [i for i, f in enumerate(frames) if float(f.t_start) != t_constructed[i]]
+    if moved:
+        obs.fail(f'selection_moved_frame_times:{sel}' + (':overwrite' if ow is not None else ''),
+                 f'frames {moved} of {nfr}: e.g. {frames[moved[0]].t_start!r} was {t_constructed[moved[0]]!r}')
         return obs
     m = len(members)
     obs.cls('frames>=2' if m >= 2 else 'frames=1')
